@@ -17,6 +17,7 @@ SHIFT_INV = {"SD", "MAD", "TR", "ATR", "MACD", "FAST"}
 
 def gen_cases(ctx):
     r = ctx.rng
+    rot = Rot(r)
     cases = []
     ks = [-40, -1, 1, 40] if not ctx.thorough else list(range(-40, 41))
     for ind in ALL:
@@ -32,10 +33,10 @@ def gen_cases(ctx):
             n = 3 * p + 12
             bars = ind in NO_SCALAR or (ind in ("TR", "ATR", "KC", "FAST", "SLOW") and gi % 2 == 1)
             if bars:
-                base = bar_stream(r, n, r.choice(["walk", "segments", "gaps", "grid"]), p=p)
+                base = bar_stream(r, n, rot.pick((ind, "b"), ["walk", "segments", "gaps", "grid"]), p=p)
                 mk = lambda s_, b, f, d: ("b", s_) + tuple(v * f + d for v in b[:4]) + (b[4],)
             else:
-                base = scalar_stream(r, n, r.choice(["walk", "ties", "periodic", "pgrid", "uniform", "segments"]), p=p, positive=True)
+                base = scalar_stream(r, n, rot.pick((ind, "n"), ["walk", "ties", "periodic", "pgrid", "uniform", "segments"]), p=p, positive=True)
                 mk = lambda s_, x, f, d: ("n", s_, x * f + d)
             # both extreme units always (absolute thresholds hide there), one mild power of two, one non-power of two
             factors = [2.0 ** k for k in ([-70, -40, 40, r.choice([-1, 1])] if not ctx.thorough else [-70, -40, 40, 70] + r.sample(ks, 10))] + [r.choice([3.0, 0.1, 1e-5, 12345.678])]
